@@ -18,5 +18,12 @@ Definition dispatch (u : Z) (a : sx) : sx :=
   | 9 => u_bracket a
   | 10 => u_openlist a
   | 11 => u_break_by_list a
+  | 12 => u_condorcet_winner a
+  | 13 => u_smith_schwartz a
+  | 14 => u_copeland a
+  | 15 => u_schulze a
+  | 16 => u_minimax a
+  | 17 => u_ranked_pairs a
+  | 18 => u_kemeny a
   | _ => bad_input
   end.
